@@ -483,6 +483,49 @@ func (fx *fnExec) evalCall(e *Expr, env *Env) TV {
 			panic(contractErr("fresh of non-reference"))
 		}
 		return TV{Sc{app(">=", app("birth", a), env.old.now), SBool}, tBool}
+	case "implements": // implements(x, "pkg.Iface"): x holds a non-nil pointer to a type of the module that implements the interface
+		v := fx.eval(e.Args[0], env).V.(IfV)
+		var it types.Type
+		for _, sp := range g.spkgs {
+			parts := strings.SplitN(e.Args[1].Str, ".", 2)
+			if len(parts) == 2 && sp.Pkg.Name() == parts[0] {
+				if obj := sp.Pkg.Scope().Lookup(parts[1]); obj != nil {
+					it = obj.Type()
+				}
+			}
+		}
+		if it == nil {
+			panic(contractErr("unknown interface " + e.Args[1].Str))
+		}
+		var alts []string
+		for _, ct := range g.implementers(it) {
+			if _, isPtr := ct.(*types.Pointer); isPtr {
+				alts = append(alts, eq(v.Tag, num(int64(g.typeTag(ct)))))
+			}
+		}
+		return TV{Sc{and(or(alts...), not(eq(v.Ref, "0"))), SBool}, tBool}
+	case "as": // as(x, "*pkg.T"): the pointer held by interface x, viewed as *pkg.T (no check: guard with typeIs)
+		v := fx.eval(e.Args[0], env)
+		var ref string
+		switch x := v.V.(type) {
+		case IfV:
+			ref = x.Ref
+		case PtrV:
+			ref = x.Addr
+		default:
+			panic(contractErr("as() of a non-reference"))
+		}
+		tn := strings.TrimPrefix(e.Args[1].Str, "*")
+		for _, sp := range g.spkgs {
+			parts := strings.SplitN(tn, ".", 2)
+			if len(parts) == 2 && sp.Pkg.Name() == parts[0] {
+				if obj := sp.Pkg.Scope().Lookup(parts[1]); obj != nil {
+					pt := types.NewPointer(obj.Type())
+					return TV{PtrV{Addr: ref, HT: g.heapTypeName(obj.Type()), Elem: obj.Type()}, pt}
+				}
+			}
+		}
+		panic(contractErr("unknown type " + e.Args[1].Str))
 	case "freshRef": // references: nil or allocated during the call; other values: true
 		v := fx.eval(e.Args[0], env)
 		var a string
@@ -503,6 +546,36 @@ func (fx *fnExec) evalCall(e *Expr, env *Env) TV {
 			panic(contractErr("unknown type " + tn))
 		}
 		return TV{Sc{eq(v.Tag, num(int64(tag))), SBool}, tBool}
+	case "precOK": // the ghost precedence of a primary expression (no operator node type) is 0
+		v := fx.eval(e.Args[0], env)
+		defs := fx.g.cs.GhostDefs["prec"]
+		switch x := v.V.(type) {
+		case PtrV:
+			ht := x.HT
+			if !fx.g.isExprHeapType(ht) || defs[ht] != nil {
+				return TV{Sc{"true", SBool}, tBool}
+			}
+			return TV{Sc{or(eq(x.Addr, "0"), eq(sel(fx.ghostLeaf(env.cur, ghostPrec, SInt), x.Addr), "0")), SBool}, tBool}
+		case IfV:
+			if v.T == nil || typeTagName(v.T) != "ast.Expr" {
+				return TV{Sc{"true", SBool}, tBool}
+			}
+			var ops []string
+			for _, ht := range sortedKeys(defs) {
+				if tag, ok := fx.g.tagByName("*" + ht); ok {
+					ops = append(ops, eq(x.Tag, num(int64(tag))))
+				}
+			}
+			return TV{Sc{or(eq(x.Tag, "0"), or(ops...), eq(sel(fx.ghostLeaf(env.cur, ghostPrec, SInt), x.Ref), "0")), SBool}, tBool}
+		}
+		return TV{Sc{"true", SBool}, tBool}
+	case "prec": // ghost printer precedence of an expression node
+		v := fx.eval(e.Args[0], env)
+		ref, _, _, ok := refOf(v.V)
+		if !ok {
+			panic(contractErr("prec of a non-reference"))
+		}
+		return TV{Sc{sel(fx.ghostLeaf(env.cur, ghostPrec, SInt), ref), SInt}, tInt}
 	case "$pos", "$end":
 		v := fx.eval(e.Args[0], env)
 		ref, _, _, ok := refOf(v.V)
